@@ -5,7 +5,7 @@
 # Writes /verif/seeded/<seed>/meta.json and removes the worktree.
 set -u
 seed=$1
-prop=$(echo $seed | cut -d- -f1); n=$(echo $seed | sed 's/.*-m//')
+prop=$(echo $seed | cut -d- -f1); n=${seed: -1}
 dir=/verif/seeded/$seed
 patch=$dir/patch.diff; [ -f $dir/patch.current.diff ] && patch=$dir/patch.current.diff
 wt=/tmp/cw/$seed
